@@ -147,6 +147,20 @@ def grid_ops(points, zero=True):
     return ops
 
 
+def edge_ops(points, tol):
+    """Queries whose end points (nearly) coincide: 1 ulp long, 1 ulp short of a grid point, shorter than tol."""
+    pts = sorted(points)
+    ops = []
+    for a, b in zip(pts[:-1], pts[1:]):
+        ops.append(['q', math.nextafter(b, 0.0), b])
+        ops.append(['q', a, math.nextafter(b, 0.0)])
+        ops.append(['q', math.nextafter(a, 2.0), b])
+        if tol:
+            ops.append(['q', a, a + tol / 3])
+            ops.append(['q', b - tol / 3, b])
+    return ops
+
+
 G8 = sorted(set([i / 8 for i in range(9)] + [1 / 3]))
 G4 = sorted(set([i / 4 for i in range(5)] + [1 / 3]))
 G10 = [round(i * 0.1, 1) for i in range(11)]
@@ -258,6 +272,7 @@ class Replay:
         self.b = None
         self.given = given or (None, None)
         self.min_len = None
+        self._stack_reported = False
 
     def __enter__(self):
         self.seam.__enter__()
@@ -295,6 +310,11 @@ class Replay:
         self.max_cache = max(self.max_cache, n)
         if cs is not None and n > cs:
             self.problems.append(('cache', dict(at=at, exc='cache_overflow', entries=n, cache_size=cs)))
+        bound = depth_bound(self.cfg, self.min_len)
+        if m.max_depth > bound and not self._stack_reported:
+            self._stack_reported = True
+            self.problems.append(('stack', dict(at=at, exc='frame_depth', depth=m.max_depth, bound=bound,
+                                                nq=self.nq)))
 
     def query(self, via, a, b, check_repeat=True):
         """One public query.  Returns (W,U,A) or None when it raised (problem recorded)."""
@@ -313,9 +333,9 @@ class Replay:
             self.problems.append(('exception', dict(at='query', exc=type(e).__name__, q=[via, a, b], nq=self.nq,
                                                     msg=str(e)[:200])))
             return None
-        self._meter_after('query')
         if b > a:
             self.min_len = (b - a) if self.min_len is None else min(self.min_len, b - a)
+        self._meter_after('query')
         if check_repeat and self.mode != 'labelled':
             key = (via, hexf(a), hexf(b))
             if key in self.first:
